@@ -149,6 +149,20 @@ def run_case(case) -> str:
             key = J.jkey(J.pub(jwk))
             if ser == "compact":
                 out = jwe.encrypt_compact(prot, pt, key, registry=reg)
+            elif case.get("rcp") == "reused_object":
+                # first encryption with a good header (every position present), then the caller edits the object's public header
+                # dictionaries in place to this case's header and encrypts again
+                cls = jwe.FlattenedJSONEncryption if ser == "flattened" else jwe.GeneralJSONEncryption
+                good = {"alg": alg, "enc": enc, **({"p2c": 8} if mode == "pbes2" else {})}
+                obj = cls(dict(good), pt, {"cty": "first"})
+                obj.add_recipient({"kid": "first"}, key)
+                first = jwe.encrypt_json(obj, None, registry=_make_registry({**case, "strict": True, "custom": "none"}))
+                if not first:
+                    return "machinery:first encryption failed"
+                for d, new in ((obj.protected, prot), (obj.unprotected, unprot), (obj.recipients[0].header, rec)):
+                    d.clear()
+                    d.update(new)
+                out = jwe.encrypt_json(obj, None, registry=reg)
             else:
                 cls = jwe.FlattenedJSONEncryption if ser == "flattened" else jwe.GeneralJSONEncryption
                 obj = cls(prot, pt, unprot or None)
@@ -212,7 +226,7 @@ def run(ctx: Ctx) -> None:
     if thorough:
       ctx.tlc_many([("HeaderCheck", "HeaderCheck_dev_" + d, {"timeout": 600, "expect_violation": True})
                   for d in ("CritNotChecked", "StrictIgnoredOnConsume", "CheckMoreNotPassed", "RequiredCustomIgnored",
-                            "B64CritNotRequired", "BoolIsInt", "TypesUncheckedInJson", "StopAtFirstUsable")], par=8)
+                            "B64CritNotRequired", "BoolIsInt", "TypesUncheckedInJson", "StopAtFirstUsable", "StaleHeaderSnapshot")], par=9)
     cases = []
     for r in rs:
         seen = set()
